@@ -3,7 +3,7 @@
 A unit is described by /verif/contracts/<unit>.vspec (directive syntax below).  Everything that is
 executable in the generated file is cut verbatim from /repo's current working tree; the only
 changes are (a) the closed list of syntactic normalisations N1..N16 and (b) specification text
-spliced at structural anchor points S1..S8.  Every change is an `Edit` with its source offset; an
+spliced at structural anchor points S1..S10.  Every change is an `Edit` with its source offset; an
 erasure self-check undoes all of them on the generated text and demands the verbatim cut back.
 
 Directives (a line starting with `//@ `; text up to the next directive belongs to it):
@@ -22,6 +22,8 @@ Directives (a line starting with `//@ `; text up to the next directive belongs t
   //@@ loop N pre                     S4
   //@@ loop N post                    S5
   //@@ loop N after                   S8  ghost text right after the loop
+  //@@ loop N before                  S9  ghost text right before the loop statement
+  //@@ let NAME K after               S10 ghost text right after the K-th let statement binding NAME
   //@@ epilogue                       S6
   //@@ closure N [ret=b] [type=bool]  S7  requires/ensures on the N-th closure (+N12 brace wrapping)
   //@ import QUAL from FILE home=UNIT [ret=r]     signature from the real source, contract text
@@ -298,6 +300,7 @@ _N13_ZIP_MAP = re.compile(r"(?<![\w.])(\w+\s*\.iter\(\))(\s*\.zip\()(\w+\s*\.ite
 _N13_MAP = re.compile(r"(?<![\w.])(\w+\s*\.iter\(\))(\s*\.map\()(?=\|)")
 _N13_POSITION = re.compile(r"(?<![\w.])(\w+(?:\[[^\]\n]*\])?)(\s*\.iter\(\)\s*\.position\()(?=\|)")
 _N13_SET_COLLECT = re.compile(r"(?<![\w.])(\w+)(\s*\.into_iter\(\)\s*\.collect\(\))")
+_N13_CLONED_COLLECT = re.compile(r"(?<![\w.])(\w+)(\s*\.iter\(\)\s*\.cloned\(\)\s*\.collect\(\))")
 _N13_FOLD = re.compile(r"(?<![\w.])(\w+\s*\.iter\(\))(\s*\.fold\()")
 _N13_TAIL_COLLECT = re.compile(r"\)\s*\.collect\(\)")
 _N13_TAIL_SUM = re.compile(r"\)\s*\.sum\(\)")
@@ -318,6 +321,7 @@ def norm_iter_chains(text, m, body_open, body_close):
         A.iter().fold(INIT, C)                   ->  verif_fold(A.iter(), INIT, C)
         A.iter().position(C)                     ->  verif_position(&A, C)         (A may be `name[range]`)
         let x: Vec<usize> = S.into_iter().collect()  ->  ... = verif_set_into_vec(S)   (S a HashSet<usize>)
+        A.iter().cloned().collect()              ->  verif_cloned_collect(&A)
     with A, B identifiers and C a closure literal."""
     edits = []
     closures = None
@@ -378,6 +382,9 @@ def norm_iter_chains(text, m, body_open, body_close):
         if re.search(r":\s*Vec<usize>\s*=\s*$", m[max(0, mm.start(1) - 60) : mm.start(1)]):
             edits.append(Edit(mm.start(1), "", "verif_set_into_vec(", "norm:N13"))
             edits.append(Edit(mm.start(2), text[mm.start(2) : mm.end(2)], ")", "norm:N13"))
+    for mm in _N13_CLONED_COLLECT.finditer(m, body_open, body_close):
+        edits.append(Edit(mm.start(1), "", "verif_cloned_collect(&", "norm:N13"))
+        edits.append(Edit(mm.start(2), text[mm.start(2) : mm.end(2)], ")", "norm:N13"))
     for mm in _N13_FOLD.finditer(m, body_open, body_close):
         edits.append(Edit(mm.start(1), "", "verif_fold(", "norm:N13"))
         edits.append(Edit(mm.start(2), text[mm.start(2) : mm.end(2)], ", ", "norm:N13"))
@@ -586,7 +593,79 @@ def gen_fn(d, strip_paths, mode="verify", contract_text=None, vacuity=False):
     epi = d.section("epilogue")
     if epi and epi.text.strip():
         _lint_ghost_only(epi.text, epi.where)
-        edits.append(Edit(body_close, "", epi.text.rstrip() + "\n", "splice:S6"))
+        # before the closing brace of a unit-returning body; if the body ends in a tail expression, before that
+        # expression (= after the last statement of the outermost block)
+        pos = body_close
+        dep = 0
+        last_semi = None
+        k = body_open + 1
+        while k < body_close:
+            ch = m[k]
+            if ch in "([{":
+                dep += 1
+            elif ch in ")]}":
+                dep -= 1
+                if dep == 0 and ch == "}":
+                    last_semi = k  # a block statement (loop, if, match) also ends a statement
+            elif ch == ";" and dep == 0:
+                last_semi = k
+            k += 1
+        if last_semi is not None and m[last_semi + 1 : body_close].strip():
+            pos = last_semi + 1
+        edits.append(Edit(pos, "", ("\n" if pos != body_close else "") + epi.text.rstrip() + "\n", "splice:S6"))
+
+    # S10: ghost text right after the K-th `let` statement that binds NAME: `//@@ let NAME K after`
+    # (structural: let statements of the body in source order whose pattern mentions the identifier; renaming the
+    # local loses the anchor -> exit 2, exactly as for an invariant that names it)
+    for s in d.sections:
+        if s.kind != "let":
+            continue
+        try:
+            name, k, what = s.args[0], int(s.args[1]), s.args[2]
+        except (ValueError, IndexError):
+            raise ExtractError("%s: expected `let NAME K after`" % s.where)
+        if what != "after":
+            raise ExtractError("%s: unknown let section %s" % (s.where, what))
+        found = []
+        for mm in re.finditer(r"\blet\b", m[:body_close]):
+            if mm.start() <= body_open:
+                continue
+            # pattern: up to the first `=` (not `==`, `=>`) or `;` at depth 0
+            j = mm.end()
+            dep = 0
+            eq = None
+            while j < body_close:
+                ch = m[j]
+                if ch in "([{<":
+                    dep += 1
+                elif ch in ")]}>":
+                    dep -= 1
+                elif ch == "=" and dep <= 0 and m[j + 1] not in "=>" and m[j - 1] not in "=!<>":
+                    eq = j
+                    break
+                elif ch == ";" and dep <= 0:
+                    break
+                j += 1
+            pat = m[mm.end() : j]
+            if not re.search(r"\b" + re.escape(name) + r"\b", pat):
+                continue
+            # statement end: the `;` at bracket depth 0 after the initialiser (a let-else block is skipped by depth)
+            dep = 0
+            e = j
+            while e < body_close:
+                ch = m[e]
+                if ch in "([{":
+                    dep += 1
+                elif ch in ")]}":
+                    dep -= 1
+                elif ch == ";" and dep == 0:
+                    break
+                e += 1
+            found.append(e)
+        if k < 1 or k > len(found):
+            raise ExtractError("lost anchor: %s has %d `let` statements binding `%s`, contract names number %d (%s)" % (qual, len(found), name, k, s.where))
+        _lint_ghost_only(s.text, s.where)
+        edits.append(Edit(found[k - 1] + 1, "", "\n" + s.text.rstrip() + "\n", "splice:S10"))
 
     loops = rs.find_loops(m, body_open, body_close)
     g.loops = len(loops)
@@ -630,6 +709,10 @@ def gen_fn(d, strip_paths, mode="verify", contract_text=None, vacuity=False):
         elif what == "post":
             _lint_ghost_only(s.text, s.where)
             edits.append(Edit(lc, "", s.text.rstrip() + "\n", "splice:S5"))
+        elif what == "before":
+            # S9: ghost text right before the loop statement (facts the loop's entry needs)
+            _lint_ghost_only(s.text, s.where)
+            edits.append(Edit(ks, "", s.text.rstrip() + "\n", "splice:S9"))
         elif what == "after":
             # S8: ghost text right after the loop's closing brace (facts the code after the loop needs)
             _lint_ghost_only(s.text, s.where)
